@@ -100,8 +100,14 @@ def table_order(prop, tier, rng):
     """C12: equal contents, different insertion order -> identical bytes; encoding twice -> identical; input unchanged."""
     n = 200 if tier == 'thorough' else 60
     jobs = []
-    for _ in range(n):
+    for i in range(n):
         t = ref.gen_table(rng, 2)
+        if i % 4 == 0:
+            # names longer than 128 characters that coincide after truncation (emitted in sorted order, whatever the insertion order)
+            t['n' * 128 + 'a'] = i
+            t['n' * 128 + 'b'] = -i
+            if i % 8 == 0:
+                t = dict(reversed(list(t.items())))
         try:
             ref.enc_table(t)
         except ref.Refused:
@@ -114,9 +120,6 @@ def table_order(prop, tier, rng):
         if obs['outcome'] != 'return':
             continue
         got = values.decode(obs['value'])
-        t = values.decode(job['args'][0])
-        if len({k[:128] for k in t}) != len(t):
-            continue
         if not (got['encoded'] == got['again'] == got['reversed'] == got['rotated'] and got['input_unchanged']):
             viol.append(_violation(prop, 'encode.field_table', job, 'same bytes for every insertion order, input unchanged', obs))
     return {'violations': viol[:10], 'coverage': {'bounded_pipeline_checks': [
@@ -170,3 +173,27 @@ print(json.dumps(out))
     return {'violations': viol, 'coverage': {'bounded_pipeline_checks': [
         {'what': 'timestamp codecs in child processes under TZ settings %s' % zones, 'inputs': n * len(zones),
          'failures': len(viol), 'bounded': True}]}}
+
+
+def mapping_protocol(prop, tier, rng):
+    """C19: all mapping views of all 65 classes, computed twice in ONE process (state shared between classes or
+    calls would show), against the ordered names of the specification table."""
+    from spec import tables
+    job = {'target': 'pyvc.probe.mapping_views', 'args': []}
+    obs = replay.native_calls([job])[0]
+    viol = []
+    want = {m.name: ([f.name for f in m.fields], [f.wire for f in m.fields]) for m in tables.METHODS}
+    want['Basic.Properties'] = ([n for n, _, _ in tables.PROPERTIES], [w for _, _, w in tables.PROPERTIES])
+    rows = values.decode(obs['value']) if obs['outcome'] == 'return' else []
+    if obs['outcome'] != 'return':
+        viol.append(_violation(prop, 'mapping views', job, 'returns', obs))
+    for r in rows:
+        names, types = want[r['class']]
+        ok = (r['iter'] == names and r['len'] == len(names) and r['attributes'] == names and r['dict_keys'] == names
+              and r['contains'] == [True] * len(names) + [False] and r['getitem_agrees'] and r['types'] == types)
+        if not ok:
+            viol.append(_violation(prop, 'mapping views of %s' % r['class'], job, 'names %r types %r' % (names, types), r))
+            break
+    return {'violations': viol[:3], 'coverage': {'bounded_pipeline_checks': [
+        {'what': 'mapping views of all 65 classes, two rounds in one process', 'inputs': len(rows), 'failures': len(viol),
+         'bounded': True}]}}
